@@ -1,6 +1,7 @@
 package main
 
 import (
+	"math/big"
 	"fmt"
 	"go/types"
 	"regexp"
@@ -692,3 +693,41 @@ func init() {
 }
 
 type wrappedCtx struct{ ctx Value }
+
+func init() {
+	// Summary (exact, branch-free) of the SDK's pure rounding kernel: avoids a 4-way fork per Dec.Mul/Quo.
+	intrinsics[sdkTypes+".chopPrecisionAndRound"] = func(ex *Exec, a []Value, _ *Frame) Value {
+		f := ex.tf
+		d := ex.bigOf(a[0])
+		P := f.Int(new(big.Int).Exp(big.NewInt(10), big.NewInt(18), nil))
+		H := f.Int(new(big.Int).Mul(big.NewInt(5), new(big.Int).Exp(big.NewInt(10), big.NewInt(17), nil)))
+		abs := f.Abs(d)
+		q := f.Div(abs, P)
+		r := f.Mod(abs, P)
+		up := f.Or(f.Lt(H, r), f.And(f.Eq(r, H), f.Eq(f.Mod(q, f.I64(2)), f.I64(1))))
+		res := f.Add(q, f.Ite(up, f.I64(1), f.I64(0)))
+		if !nonneg(d) {
+			res = f.Ite(f.Lt(d, f.I64(0)), f.Neg(res), res)
+		}
+		ex.noteAssumption("cosmos-sdk chopPrecisionAndRound (banker's rounding at 18 decimals) is summarised by its exact closed form instead of being forked four ways")
+		return ex.setBig(a[0], res)
+	}
+}
+
+func init() {
+	// (sdk.Int).Mul: panics ("Int overflow") iff |x*y| needs more than 255 bits. The SDK tests this with
+	// BitLen(x)+BitLen(y)-1 > 255 first and BitLen(x*y) > 255 afterwards; together that is exactly |x*y| >= 2^255
+	// (BitLen(x)+BitLen(y)-1 <= BitLen(x*y)), which is expressible without a symbolic BitLen sum.
+	intrinsics["("+sdkTypes+".Int).Mul"] = func(ex *Exec, a []Value, _ *Frame) Value {
+		f := ex.tf
+		x := ex.bigOf(a[0].(Struct).F[0])
+		y := ex.bigOf(a[1].(Struct).F[0])
+		prod := f.Mul(x, y)
+		over := f.Le(f.Int(pow2(255)), f.Abs(prod))
+		if ex.branchNoSite(over) {
+			ex.goPanic("Int overflow")
+		}
+		ex.noteAssumption("(sdk.Int).Mul overflow test is summarised as |x*y| >= 2^255 (equivalent to the SDK's two BitLen tests)")
+		return Struct{[]Value{ex.newBig(prod)}}
+	}
+}
